@@ -22,10 +22,17 @@ Section ApplySim.
     r_failed a = r_failed c /\ r_hunks a = r_hunks c /\ r_dir a = r_dir c /\ r_fuzz a = r_fuzz c /\
     eff (r_prev_perm a) = eff (r_prev_perm c) /\ r_prev_deleted a = r_prev_deleted c.
 
+  (* what an undo reads of the report it undoes: the hunk reports and the recorded state before - not the fuzz
+     limit, the direction or the failed flag *)
+  Definition rbase (x y : freport) : Prop :=
+    r_hunks x = r_hunks y /\ eff (r_prev_perm x) = eff (r_prev_perm y) /\ r_prev_deleted x = r_prev_deleted y.
+  Lemma rsim_rbase x y : rsim x y -> rbase x y.
+  Proof. intros (_ & R2 & _ & _ & R5 & R6). repeat split; assumption. Qed.
+
   Definition amsim (a c : amode) : Prop :=
     match a, c with
     | Normal, Normal => True
-    | Rollback x, Rollback y => rsim x y
+    | Rollback x, Rollback y => rbase x y
     | _, _ => False
     end.
 
@@ -164,7 +171,7 @@ Section ApplySim.
       destruct (match d with Fwd => fp_nperm fp | Rev => fp_operm fp end) as [np|]; cbn.
       + rewrite Hd. repeat split; cbn; auto; destruct (deleted x2); auto.
       + rewrite Hd. repeat split; cbn; auto; destruct (deleted x2); auto.
-    - destruct Ha as (R1 & R2 & R3 & R4 & R5 & R6). cbn. repeat split; cbn; auto.
+    - destruct Ha as (R2 & R5 & R6). cbn. repeat split; cbn; auto.
   Qed.
 End ApplySim.
 
@@ -513,7 +520,7 @@ Section QuiltSim.
     intros Hm Hr. unfold rollback_l1, Apply.rollback, try_rollback.
     pose proof Hr as (R1 & R2 & R3 & R4 & R5 & R6). rewrite R2, R3.
     destruct (negb (Nat.eqb (length (fp_hunks fp)) (length (r_hunks rep2)))); cbn [bind lift ressim]; auto.
-    pose proof (apply_internal_sim bytes bytes_eqb effm fp m1 m2 (opposite (r_dir rep2)) 0 (Rollback rep1) (Rollback rep2) Hm Hr) as H.
+    pose proof (apply_internal_sim bytes bytes_eqb effm fp m1 m2 (opposite (r_dir rep2)) 0 (Rollback rep1) (Rollback rep2) Hm (rsim_rbase effm _ _ Hr)) as H.
     destruct (apply_internal bytes bytes_eqb fp m1 (opposite (r_dir rep2)) 0 (Rollback rep1)) as [[a ra]| |];
       destruct (apply_internal bytes bytes_eqb fp m2 (opposite (r_dir rep2)) 0 (Rollback rep2)) as [[c rc]| |];
       cbn [osim] in H; try contradiction; cbn [bind lift ressim]; auto.
